@@ -197,7 +197,7 @@ def mwOptsCase (inp impl : String) : CaseOut :=
     let want := String.intercalate ";" ((List.range na).map chain)
     { model := want,
       spec := if impl = want then "ok" else s!"FAIL:C13 an actor does not run the middleware chain given at its spawn: [{impl}] expected [{want}]",
-      tags := [s!"common{nc}", s!"actors{na}"], nontrivial := na ≥ 2 }
+      tags := [s!"common{nc}", s!"actors{na}", if (kvNat ws "child") = some 1 then "spawned-as-child" else "spawned-by-engine"], nontrivial := na ≥ 2 }
   | _, _ => bad "fields"
 
 end Driver
